@@ -464,12 +464,15 @@ CATALOGUE = requests_catalogue()
 #   "faulty":  the device's blockchain state moves with every block and it stops answering at the second block of an advance
 #   "hb":      a uiHeartbeat (the device switches to the UI-heartbeat app and back to the signer: two re-openings of the link)
 #   "v1fault": a manager in legacy (v1) protocol mode; the link fails (write error) at the second exchange after serving starts
-MODES = {11: "faulty", 12: "faulty", 13: "hb", 14: "v1fault"}
+#   "fatal":   the device answers the sign command with a status the manager treats as fatal (reply -906, then shutdown):
+#              clients accepted afterwards are not served; nothing else may talk to the device meanwhile
+MODES = {11: "faulty", 12: "faulty", 13: "hb", 14: "v1fault", 15: "fatal", 16: "fatal"}
 PAIRS = [(0, 1), (0, 2), (2, 1), (3, 0), (0, 5), (4, 3)]
 TRIPLES = [(0, 1, 2), (3, 0, 4), (0, 5, 2)]
 SETS = PAIRS + TRIPLES + [(0, 1, 2, 3), (2, 5, 4, 0)]                    # 2, 3 and 4 clients
 SETS = SETS + [(1, 6, 1), (6, 1, 4, 1)]      # ("faulty") a state query before and after a two-block advance the device abandons half way
 SETS = SETS + [(7, 1, 4), (8, 9, 8)]         # ("hb") uiHeartbeat | state | getPubKey ; ("v1fault") v1: sign | getPubKey | sign
+SETS = SETS + [(5, 1), (1, 5, 4)]            # ("fatal") hash sign (fatal) | state [| getPubKey]
 if os.environ.get("VERIF_TIER") == "thorough":
     SETS = SETS + [(2, 0, 3), (1, 2, 5), (0, 0, 1), (0, 0, 0, 0), (3, 2, 1, 0), (0, 1, 2, 3, 4), (0, 1, 2, 3, 4, 5)]    # (equal requests too), 5 and 6 clients
 
@@ -514,9 +517,13 @@ class StatefulDevice(SimDevice):
                 self.hashes[sel] = [(self.taken * 17 + sel) & 0xff] * 32
         return SimDevice._after_block(self, b, cmd, OP_META, OP_PARTIAL, OP_SUCCESS)
 
+    fatal_on_sign = False
+
     def handle(self, apdu):
-        from sim.base import blist, raise_fault, FAULT_TIMEOUT
+        from sim.base import blist, raise_fault, FAULT_TIMEOUT, FAULT_SW
         a = blist(apdu)
+        if self.fatal_on_sign and a[1] == 0x02:
+            raise_fault(FAULT_SW, 0x6F01)        # an error the manager treats as fatal: it answers -906 and shuts down
         if self.fail_block is not None and len(a) > 2 and a[1] == 0x10 and a[2] == 0x03 and self.block_op is not None \
                 and len(self.block_op["blocks"]) == self.fail_block:
             raise_fault(FAULT_TIMEOUT)
@@ -527,6 +534,8 @@ def device(mode=""):
     d = StatefulDevice(fail_block=1 if mode == "faulty" else None)
     if mode == "hb":
         d.mode_after_exit = [4, 3]
+    if mode == "fatal":
+        d.fatal_on_sign = True
     # the state query reads these: give every selector an explicit initial value
     from harness.c13 import STATE_FIELDS
     d.hashes = {sel: [sel & 0xff] * 32 for (_, sel) in STATE_FIELDS}
@@ -586,6 +595,16 @@ class ReplayDevice:
         return outcome[1]
 
 
+def serve_one(proto, req):
+    """What the server layer makes of one request: (reply bytes, fatal?).  HSM2ProtocolError = reply 'unknown error', then shutdown."""
+    from comm.protocol import HSM2ProtocolError
+    try:
+        r = proto.handle_request(real_json.loads(line_of(req)))
+    except HSM2ProtocolError:
+        return real_json.dumps(proto.unknown_error(), sort_keys=True).encode() + b"\n", True
+    return real_json.dumps(r, sort_keys=True).encode() + b"\n", False
+
+
 def isolated(req, block, reply, v1=False):
     """The request served by a FRESH manager against a device that replays the recorded block: does the fresh manager send
     the same APDUs (and reconnect in the same places), and does it build the same reply?  If not, the long-running manager's
@@ -598,7 +617,7 @@ def isolated(req, block, reply, v1=False):
     (proto.protocol_v2 if v1 else proto)._comm_issue = bool(events) and events[0][0] == "close"
     n0 = len(world.log)
     try:
-        r = proto.handle_request(real_json.loads(line_of(req)))
+        got_reply, _ = serve_one(proto, req)
     except BaseException as e:
         reraise_control_flow(e)
         note("isolated run raised", type(e).__name__, str(e)[:200], dev.bad)
@@ -608,7 +627,7 @@ def isolated(req, block, reply, v1=False):
     if dev.bad or dev.exchanges or got != want:
         note("isolated run differs", dev.bad, len(dev.exchanges), len(got), len(want))
         return False
-    return real_json.dumps(r, sort_keys=True).encode() + b"\n" == reply
+    return got_reply == reply
 
 
 LINK_FAULT_AT = 1       # "v1fault": index (after the bring-up) of the exchange whose write fails
@@ -657,23 +676,31 @@ def sequential(order, reqs, mode=""):
     apdus, replies, blocks = {}, {}, {}
     ok = True
     prev_reply = None
+    down = False
+    served = []
     for i in order:
+        if down:
+            apdus[i], replies[i] = [], b""          # the manager is shutting down: this client is not served
+            continue
         n0, k0 = len(world.log), len(world.outcomes)
-        r = proto.handle_request(real_json.loads(line_of(reqs[i])))
+        reply, fatal = serve_one(proto, reqs[i])
         if _wait_for_strays():
             note("the request left a thread running")
         events = list(world.log[n0:])
         apdus[i] = [bytes(e[1]) for e in events if e[0] == "apdu"]
-        replies[i] = real_json.dumps(r, sort_keys=True).encode() + b"\n"
+        replies[i] = reply
         blocks[i] = (events, list(world.outcomes[k0:]))
+        served.append(i)
+        r = real_json.loads(reply)
         if events and events[0][0] == "close" and not (isinstance(prev_reply, dict) and prev_reply.get("errorcode") in (-905, -2)):
             note("block starts with a re-opening although the previous request was not answered with the device-error code", i)
             ok = False
         prev_reply = r
+        down = fatal
     if stray:
         note("device exchanges made by a thread other than the serving one", stray[:5])
         ok = False
-    ok = ok and all(isolated(reqs[i], blocks[i], replies[i], v1=mode == "v1fault") for i in order)
+    ok = ok and all(isolated(reqs[i], blocks[i], replies[i], v1=mode == "v1fault") for i in served)
     return apdus, replies, ok
 
 
